@@ -339,6 +339,13 @@ def check_views(b, A, nm, n, roots_t, refs, cwd, tag):
     got_d = b.descendants(iter(list(roots)))
     require(set(got_d) == want_nodes, 'descendants.wrong',
             dict(got=sorted(got_d), want=sorted(want_nodes)))
+    # an iterable of references may be a dict (ordered de-duplication:
+    # `dict.fromkeys(roots)`; its values mean nothing) or a key view
+    for arg_ in (dict.fromkeys(roots, 1), dict.fromkeys(roots).keys()):
+        got_d = b.descendants(arg_)
+        require(set(got_d) == want_nodes, 'descendants.wrong',
+                dict(got=sorted(got_d), want=sorted(want_nodes),
+                     roots=type(arg_).__name__))
     require(set(g.nodes) == want_nodes or (not roots and not g.nodes),
             'nx.node_set', dict(got=sorted(g.nodes),
                                 want=sorted(want_nodes)))
